@@ -112,7 +112,7 @@ func genTotCase(rng *rand.Rand) (*totCase, []string) {
 		}
 		rq := totReq{Method: core.B(m), Path: core.B(p)}
 		for k := rng.Intn(3); k > 0; k-- {
-			rq.Hdr = append(rq.Hdr, [2]string{[]string{"X-K", "X-K", "Accept", "Content-Type", "x-odd header", ""}[rng.Intn(6)], []string{"v1", "1", "", "zz"}[rng.Intn(4)]})
+			rq.Hdr = append(rq.Hdr, [2]string{[]string{"X-K", "X-K", "Accept", "Content-Type", "x-odd header", "", "X-Forwarded-For", "X-Real-Ip"}[rng.Intn(8)], []string{"v1", "1", "", "zz", ",", ", ,", " ", "1.2.3.4, 5.6.7.8", ":"}[rng.Intn(9)]})
 		}
 		if i > 0 && rng.Intn(4) == 0 {
 			// the same path as an earlier request with other headers: outcomes must not depend on what was served before
@@ -157,6 +157,9 @@ func buildTot(c *totCase) *totInstance {
 	ti := &totInstance{f: flamego.NewWithLogger(io.Discard), models: map[string]*rmodel.Model{}, ok: true, cons: map[int]map[string]*regexp.Regexp{}}
 	if c.MW {
 		ti.f.Use(func() { ti.cur.mw++ })
+	}
+	if len(c.Routes)%4 == 1 {
+		ti.f.Use(flamego.Logger()) // the built-in request logger (reads method, URI, remote address, status); logs to io.Discard
 	}
 	if len(c.Routes)%2 == 0 {
 		// Before handlers that decline (return false) run ahead of routing and must not influence the outcome
